@@ -55,7 +55,7 @@ Proof.
   - (* nothing sent yet *)
     apply Z.eqb_eq in E0. subst stt. clear Hi.
     pose proof (observe_cb (mkj None sz hk on) 0 (rev hk)) as OC.
-    destruct o as [c|bs acc| |id p| | |];
+    destruct o as [c|bs acc|fl|id p| | |]; try destruct fl;
       unfold step, ensure_header, write_header, expected, jstep;
       cbn [status size hooks once sent fwd regs fired is_trigger trigger_code andb negb Z.eqb valid_op] in *;
       try (destruct on; cbn [negb];
@@ -68,7 +68,7 @@ Proof.
       repeat split; try reflexivity; try (intros X; discriminate).
   - (* a status has been sent *)
     specialize (Hi eq_refl). subst on.
-    destruct o as [c|bs acc| |id p| | |]; try destruct head;
+    destruct o as [c|bs acc|fl|id p| | |]; try destruct fl; try destruct head;
       unfold step, ensure_header, write_header, expected, jstep, rel;
       cbn [status size hooks once sent fwd regs fired is_trigger fst snd negb andb orb];
       rewrite ?E0; cbn [negb fst snd app observe status size hooks once sent fwd regs fired orb];
@@ -132,13 +132,13 @@ Proof.
   destruct (sent j) as [c|] eqn:Es; cbn [andb].
   - (* a status has been seen: no attempt *)
     rewrite andb_false_r. cbn [andb].
-    destruct o as [c'|bs acc| |id p| | |]; destruct head; cbn;
+    destruct o as [c'|bs acc|fl|id p| | |]; try destruct fl; destruct head; cbn;
       repeat split; try lia; try reflexivity; try (intros; congruence);
       intros _ bs' n' H; cbn in H; intuition discriminate.
   - rewrite andb_true_r.
     destruct (is_trigger o) eqn:T; cbn [andb].
     + destruct (fired j) eqn:Ef; cbn [negb].
-      * destruct o as [c'|bs acc| |id p| | |]; try discriminate; destruct head; cbn;
+      * destruct o as [c'|bs acc|fl|id p| | |]; try discriminate; try destruct fl; destruct head; cbn;
           repeat split; try lia; try reflexivity; try (intros [X|X]; congruence); try (intros; congruence);
           intros _ bs' n' H; cbn in H; intuition discriminate.
       * destruct (call_before 0 (rev (regs j))) as [pre pan] eqn:CB. cbn [fst] in W.
@@ -147,12 +147,12 @@ Proof.
         destruct pan.
         -- repeat split; try lia; try (intros; congruence); try (intros [X|X]; congruence).
            intros _ bs n. apply NUp.
-        -- destruct o as [c'|bs acc| |id p| | |]; try discriminate; destruct head;
+        -- destruct o as [c'|bs acc|fl|id p| | |]; try discriminate; try destruct fl; destruct head;
              rewrite ?app_nil_r, ?count_app, ?W; cbn;
              repeat split; try lia; try (intros; congruence); try (intros [X|X]; congruence);
              intros _ bs' n' H; repeat (apply in_app_or in H as [H|H]); try (apply NUp in H; exact H);
              cbn in H; intuition discriminate.
-    + destruct o as [c'|bs acc| |id p| | |]; try discriminate; cbn;
+    + destruct o as [c'|bs acc|fl|id p| | |]; try discriminate; try destruct fl; cbn;
         repeat split; try lia; try reflexivity; try (intros; congruence);
         intros _ bs' n' H; cbn in H; intuition discriminate.
 Qed.
@@ -237,12 +237,12 @@ Proof.
   pose proof (status_first_cb false 0 (rev (regs j))) as SF.
   pose proof (count_cb is_wh 0 (rev (regs j)) (fun _ => eq_refl) eq_refl) as W.
   destruct (sent j) as [c|] eqn:Es.
-  - rewrite andb_false_r. cbn [andb]. destruct o; cbn; try reflexivity; destruct head; reflexivity.
+  - rewrite andb_false_r. cbn [andb]. destruct o as [c'|bs acc|fl|id p| | |]; try destruct fl; cbn; try reflexivity; destruct head; reflexivity.
   - rewrite andb_true_r. destruct (is_trigger o) eqn:T; cbn [andb].
     + destruct (fired j); cbn [negb].
-      * destruct o; try discriminate; destruct head; reflexivity.
+      * destruct o as [c'|bs acc|fl|id p| | |]; try discriminate; try destruct fl; destruct head; reflexivity.
       * destruct (call_before 0 (rev (regs j))) as [pre pan]. cbn [fst] in SF, W. destruct pan; [exact SF|].
-        destruct o; try discriminate; try destruct head;
+        destruct o as [c'|bs acc|fl|id p| | |]; try discriminate; try destruct fl; try destruct head;
           rewrite ?app_nil_r, ?status_first_app, ?count_app, ?SF, ?W; cbn; reflexivity.
     + destruct o; try discriminate; reflexivity.
 Qed.
